@@ -3,6 +3,7 @@
 # 1. confirms the seeded change in its scratch worktree (tests pass, demo fails with / passes without the change)
 # 2. keeps it as /verif/seeded/<seed-name>/ (patch.diff, demo, meta.json is written by hand afterwards)
 # 3. applies it to /repo, runs the given checks (quick), undoes it
+ROOT=$(cd "$(dirname "$0")/.." && pwd)
 name=$1; wt=$2; prop=$3; shift 3
 set -u
 cd "$wt" || exit 2
@@ -15,7 +16,7 @@ git checkout -- src cmake
 echo "== demo without the change"; PYTHONPATH=$wt/src /venv/bin/python -W ignore $demo > /tmp/_demo_without.txt 2>&1; echo "exit=$?"; tail -2 /tmp/_demo_without.txt
 git apply /tmp/_seed.diff
 mkdir -p /verif/seeded/$name && cp /tmp/_seed.diff /verif/seeded/$name/patch.diff && cp $demo /verif/seeded/$name/
-cd "$(dirname "$0")/.."
+cd "$ROOT"
 # SEED_REPO: scratch worktree of /repo HEAD to apply the change in (default: /repo itself, as the brief prescribes)
 R=${SEED_REPO:-/repo}
 if ! git -C $R apply --check /tmp/_seed.diff 2>/dev/null; then echo "PATCH DOES NOT APPLY TO $R HEAD"; exit 3; fi
